@@ -34,11 +34,21 @@ class C13(Prop):
             [3, b"cn", b""],
             [9, [b"dn"], [b"cn"], b":=", True],
             [0, [[2, [3, b"a", b"b)(c=d"]], [7, b"objectClass"]]],
+            [1, [[3, b"uid", b"u%d" % i] for i in range(600)]],
         ]
         return [{"kind": "tree", "f": f} for f in cs]
 
     def generate(self, rng, n, tier):
-        return [{"kind": "tree", "f": rfc4515.g_tree(rng, rng.choice([0, 1, 2, 3, 5]))} for _ in range(n)]
+        out = []
+        for _ in range(n):
+            if rng.random() < 0.004:
+                # wide and shallow: hundreds to thousands of items under one operator (a bulk lookup)
+                k = rng.choice([300, 501, 600, 1200, 2500])
+                items = [[3, b"uid", b"u%d" % i] for i in range(k)]
+                out.append({"kind": "tree", "f": [rng.choice([0, 1]), items]})
+            else:
+                out.append({"kind": "tree", "f": rfc4515.g_tree(rng, rng.choice([0, 1, 2, 3, 5]))})
+        return out
 
     def model_requests(self, c):
         return [[202, c["f"]]]
